@@ -90,9 +90,14 @@ CHECKS = {
              "is Armed, no call is in progress, all three workers of every configured stream have exited with their running flags clear and "
              "neither camera nor storage is in the running state (C07_armed_after_return); storage holds a gap-free prefix of the delivered frames "
              "at every moment (C07_prefix_at_abort); a later start/stop is complete and contains only its own frames whatever was aborted before "
-             "(C07_clean_restart). 'Returns after finitely many steps' is covered by the deadlock/step-limit detector of the deterministic "
-             "scheduler on every run (no enabled thread = reported hang) and, for the wake-up protocol of the queue, by C03's theorems; the "
-             "pipeline-level bounded-progress theorem is stated in DESIGN.md as not yet proved. Tied to the code by the trace-acceptance check of "
+             "(C07_clean_restart). 'Returns after finitely many steps': a progress certificate for the wind-down phase that the refusal of writes "
+             "by abort / shutdown / a failed start begins (C07_abort_enters_phase, C07_winddown_phase_stable): a natural-number measure that every "
+             "event of a worker thread strictly decreases, except the sink's polls of its queue while it has not been told to stop or nothing "
+             "mapped is old enough, and a join marker (C07_winddown_progress; a poll adds at most 2, client events add nothing: "
+             "C07_winddown_poll_bound, C07_winddown_client_neutral), and while a worker is alive some worker event that decreases the measure "
+             "is enabled - no deadlock (C07_winddown_no_deadlock; invariant group 5 relates the stop flags to the program counters). Fairness "
+             "of the OS scheduler, the wake-up of a blocked writer (C03) and the passing of time remain assumptions; the deterministic "
+             "scheduler's deadlock / step-limit detector checks the real runtime on every run. Tied to the code by the trace-acceptance check of "
              "C04 with abort/stop at random scheduling points, triggers, unbounded acquisitions, averaging on/off, followed by further acquisitions.",
         note=TB + "Modelled, not verified: OS fairness (an enabled thread is eventually scheduled); pthread mutex/condvar/event semantics "
              "(harness/vplatform replaces platform.c); sequential consistency at the granularity of the blocks between scheduling points (the C11 "
@@ -133,7 +138,8 @@ CHECKS = {
              "(C09_nothing_appended_after_failure, C09_failed_append_leaves_running); frames are requested only from a running camera "
              "(C09_frames_only_while_running); when stop or abort returns, with or without a fault, workers have exited, camera and storage are "
              "stopped and the state is Armed (C09_wound_down_at_return); Running is reported only while a worker is alive "
-             "(C09_running_report_means_alive); a later fault-free acquisition is complete and correct (C09_next_run_correct). Tied to the code "
+             "(C09_running_report_means_alive); a later fault-free acquisition is complete and correct (C09_next_run_correct); the wind-down after "
+             "a failure terminates: the progress certificate of C07 (C09_winddown_progress, C09_winddown_no_deadlock). Tied to the code "
              "by the trace-acceptance check of C04 with the fault index swept over frame/append/start calls, ring capacities and schedules, and a "
              "following acquisition; the oracle checks call order after the failure, device stops, return of stop/abort (deadlock detector) and "
              "the next run's storage log.",
